@@ -38,6 +38,8 @@ def run_op(op, state):
     if k == "chdir":
         os.chdir(op["dir"])
         return None
+    if k == "noop":
+        return None
     if k in ("eval", "call", "keep"):
         modn, fn = op["entry"].split(":")
         f = getattr(importlib.import_module(modn), fn)
@@ -51,9 +53,26 @@ def run_op(op, state):
     raise ValueError(op)
 
 
-def child_main(rfd, wfd, proc_id, job, gate_root, seed_hex, incarnation=0):
-    """Never returns."""
+def _run_job(seam, job, state):
+    seam.gate("start")
+    for i, op in enumerate(job):
+        if op.get("invoke_gate", True):
+            seam.gate("invoke", i)
+        seam.event("invoke", i)
+        out = outcome_of(lambda: run_op(op, state))
+        log = None
+        if "simutil" in sys.modules:
+            log = list(sys.modules["simutil"].LOG)
+            del sys.modules["simutil"].LOG[:]
+        seam.event("ret", [i, out, log])
+
+
+def child_main(rfd, wfd, proc_id, job, gate_root, seed_hex, incarnation=0, worker_pipes=None):
+    """Never returns. With worker_pipes (child ends of pipe pairs created by the scheduler) the process stays alive
+    after its job as a template: on request it forks workers that inherit its whole memory image (imported modules,
+    configured store, every cache of dds) and run their own job under the scheduler."""
     code = 0
+    cur = (rfd, wfd)
     try:
         quiet_process()
         ensure_repo_on_path()
@@ -61,21 +80,36 @@ def child_main(rfd, wfd, proc_id, job, gate_root, seed_hex, incarnation=0):
         seam = Seam(chan, gate_root, proc_id, seed_hex, incarnation)
         seam.install()
         state = {}
-        seam.gate("start")
-        for i, op in enumerate(job):
-            if op.get("invoke_gate", True):
-                seam.gate("invoke", i)
-            seam.event("invoke", i)
-            out = outcome_of(lambda: run_op(op, state))
-            log = None
-            if "simutil" in sys.modules:
-                log = list(sys.modules["simutil"].LOG)
-                del sys.modules["simutil"].LOG[:]
-            seam.event("ret", [i, out, log])
+        _run_job(seam, job, state)
+        if worker_pipes:
+            import signal
+
+            signal.signal(signal.SIGCHLD, signal.SIG_IGN)    # workers are reaped by the kernel
+            chan.send(("forkserver",))
+            while True:
+                msg = chan.recv()
+                if msg is None or msg[0] == "exit":
+                    break
+                _, slot, wid, winc, wjob = msg
+                pid = os.fork()
+                if pid == 0:
+                    for k, (r, w) in enumerate(worker_pipes):
+                        if k != slot:
+                            os.close(r)
+                            os.close(w)
+                    os.close(rfd)
+                    os.close(wfd)
+                    cur = worker_pipes[slot]
+                    wchan = Channel(*cur)
+                    seam.rebind(wchan, wid, winc)
+                    wchan.send(("hello", seam.real_pid()))
+                    _run_job(seam, wjob, state)
+                    wchan.send(("done",))
+                    os._exit(0)
         chan.send(("done",))
     except BaseException:  # noqa
         try:
-            Channel(rfd, wfd).send(("crash", traceback.format_exc()[-3000:]))
+            Channel(*cur).send(("crash", traceback.format_exc()[-3000:]))
         except BaseException:  # noqa
             pass
         code = 98
